@@ -142,6 +142,14 @@ int sim_mkfile(const char *path, const void *data, size_t n, uid_t uid, int mode
   hbuf_add(&W.ino[ino].cur, data, n); hbuf_add(&W.ino[ino].dur, data, n);
   return ino;
 }
+int sim_mkfile_ino(const char *fmt, int split, const void *data, size_t n, uid_t uid, int mode) {
+  int ino = ino_alloc(SI_FILE, uid, mode); char path[200];
+  if (split) snprintf(path, sizeof path, fmt, ino % split, ino); else snprintf(path, sizeof path, fmt, ino);
+  dent_add(path, ino);
+  hbuf_add(&W.ino[ino].cur, data, n); hbuf_add(&W.ino[ino].dur, data, n);
+  return ino;
+}
+int sim_link_(const char *a, const char *b) { int ino = sim_lookup(a); if (ino < 0) return -1; dent_add(b, ino); return 0; }
 int sim_mkfifo_(const char *path, uid_t uid, int mode) { int ino = ino_alloc(SI_FIFO, uid, mode); dent_add(path, ino); return ino; }
 
 simproc *sim_proc(int idx, const char *name, long pid, uid_t uid, const char *cwd) {
@@ -278,6 +286,7 @@ void sim_spawn(simproc *p, int (*mainfn)(void)) {
 
 /* blocked-ness is re-evaluated by the scheduler through this predicate */
 static int (*blocked_pred[SIM_MAXPROC])(simproc *);
+void (*sim_sink_hook)(simproc *, int);
 int (*sim_idle_hook)(void);   /* called when every live process is blocked: may advance the clock; returns 0 to stop */
 
 void sim_run_all(void) {
@@ -434,6 +443,7 @@ int close(int fd) {
     if (n->type == SI_FIFO && n->readers == 0 && n->writers == 0) n->buffered = 0;
     if (n->lockproc == p->idx) n->lockproc = -1;
     if (vis) sim_tr("P%d #%d close_fifo %s -> 0\n", p->idx, p->ncalls, f->kind == SFD_FIFO_R ? "r" : "w");
+    else if (n->type == SI_FILE) sim_tr("P%d close %d\n", p->idx, fd);
     ino_maybe_free(f->ino);
   } else if (f->kind == SFD_PIPE_W) { if (--W.pipe[f->aux].writers == 0) W.pipe[f->aux].wclosed = 1; }
   else if (f->kind == SFD_PIPE_R) { if (--W.pipe[f->aux].readers == 0) W.pipe[f->aux].rclosed = 1; }
@@ -447,6 +457,7 @@ ssize_t read(int fd, void *buf, size_t len) {
   simproc *p = sim_cur; simfd *f = fd_get(fd);
   if (!f) FAIL(EBADF);
   GATE("read");
+  if (faulted && (f->kind == SFD_PIPE_R)) faulted = 0;     /* the cleaner's pipes do not fail while it lives */
   if (faulted) { if (ferr == -1) ferr = EIO; sim_tr("P%d #%d read %d -> -1 e%d FAULT\n", p->idx, p->ncalls, fd, ferr); FAIL(ferr); }
   ssize_t r = 0;
   switch (f->kind) {
@@ -478,7 +489,8 @@ ssize_t read(int fd, void *buf, size_t len) {
     case SFD_NULL: r = 0; break;
     default: FAIL(EBADF);
   }
-  sim_tr("P%d #%d read %d -> %zd\n", p->idx, p->ncalls, fd, r);
+  if (f->kind == SFD_SOURCE || f->kind == SFD_PIPE_R) { sim_tr("P%d #%d read %d -> %zd data=", p->idx, p->ncalls, fd, r); sim_tr_hex(buf, r); sim_tr("\n"); }
+  else sim_tr("P%d #%d read %d -> %zd\n", p->idx, p->ncalls, fd, r);
   return r;
 }
 static int pipe_wait_data(simproc *p) { return W.pipe[blk_pipe].data.n == 0 && !W.pipe[blk_pipe].wclosed; }
@@ -487,10 +499,11 @@ ssize_t write(int fd, const void *buf, size_t len) {
   if (!sim_on) { static ssize_t (*f)(int, const void *, size_t); if (!f) f = real("write"); return f(fd, buf, len); }
   simproc *p = sim_cur; simfd *f = fd_get(fd);
   if (!f) FAIL(EBADF);
-  if (f->kind == SFD_SINK) { hbuf_add(&W.sink[f->aux], buf, len); return len; }   /* logs: not a scheduling point */
+  if (f->kind == SFD_SINK) { hbuf_add(&W.sink[f->aux], buf, len); if (sim_sink_hook) sim_sink_hook(p, fd); return len; }   /* logs: not a scheduling point */
   if (f->kind == SFD_NULL) return len;
   GATE("write");
   size_t wlen = len;
+  if (faulted && f->kind == SFD_PIPE_W) faulted = 0;
   if (faulted) {
     const char *wn = f->kind == SFD_FIFO_W ? "write_fifo" : f->kind == SFD_PIPE_W ? "write_pipe" : "write";
     if (ferr != -1) { sim_tr("P%d #%d %s %d n=%zu -> -1 e%d FAULT\n", p->idx, p->ncalls, wn, fd, len, ferr); FAIL(ferr); }
@@ -521,7 +534,7 @@ ssize_t write(int fd, const void *buf, size_t len) {
       simpipe *q = &W.pipe[f->aux];
       if (q->rclosed) { sim_tr("P%d #%d write_pipe %d -> -1 e%d\n", p->idx, p->ncalls, fd, EPIPE); FAIL(EPIPE); }
       hbuf_add(&q->data, buf, wlen);
-      sim_tr("P%d #%d write_pipe %d n=%zu -> %zu\n", p->idx, p->ncalls, fd, len, wlen);
+      sim_tr("P%d #%d write_pipe %d n=%zu -> %zu data=", p->idx, p->ncalls, fd, len, wlen); sim_tr_hex(buf, wlen); sim_tr("\n");
       break; }
     default: FAIL(EBADF);
   }
